@@ -170,11 +170,13 @@ def generate(rng, tier):
         prnu = dcnu = None
     prnu = dcnu = None
     if not exact and not big and rng.random() < 0.3:
-        prnu = {"seed": rng.getrandbits(32), "spread": rng.choice([0.0, 0.02, 0.3]),
-                "dtype": rng.choice(["f64", "f64", "f32"]), "zeros": rng.random() < 0.1}
+        prnu = {"seed": rng.getrandbits(32), "spread": rng.choice([0.0, 0.02, 0.3, 1e-5, 2e-6]),
+                "dtype": rng.choice(["f64", "f64", "f32"]), "zeros": rng.random() < 0.1,
+                "layout": rng.choice(["c", "c", "strided", "transposed"])}
     if not big and rng.random() < 0.2:
-        dcnu = {"seed": rng.getrandbits(32), "spread": rng.choice([0.0, 0.1, 0.5]),
-                "dtype": rng.choice(["f64", "f64", "f32", "i64"])}
+        dcnu = {"seed": rng.getrandbits(32), "spread": rng.choice([0.0, 0.1, 0.5, 1e-5]),
+                "dtype": rng.choice(["f64", "f64", "f32", "i64"]),
+                "layout": rng.choice(["c", "c", "strided", "transposed"])}
     det = {"bits": bits, "gain": gain, "bias": bias, "fwc": fwc, "dark": dark, "t": t,
            "read_noise": read_noise, "frames": frames, "prnu": prnu, "dcnu": dcnu}
     tt = t if t > 0 else 1.0
@@ -195,11 +197,16 @@ def generate(rng, tier):
         # reconfigure the (possibly shared) detector, then expose again: the new frame
         # must follow the new settings, whatever the object remembered
         what = rng.choice(["t", "dark", "gain", "bias", "fwc", "dcnu", "prnu", "bits", "frames"])
+        if prnu and prnu["dtype"] == "f64" and rng.random() < 0.4:
+            what = "prnu_scale"               # the installed map is edited in place (det.prnu *= k)
+        elif dcnu and dcnu["dtype"] == "f64" and rng.random() < 0.4:
+            what = "dcnu_scale"
         val = {"t": rng.choice([0.0, 0.5, 2.0, 3.0]), "dark": rng.choice([0.0, 5.0, 40.0]),
                "gain": rng.choice([0.5, 2.0, gain * 3]), "bias": float(rng.choice([0, 50, 500])),
                "fwc": fwc * rng.choice([0.25, 4.0]), "dcnu": {"seed": rng.getrandbits(32), "spread": 0.6},
                "prnu": None if exact else {"seed": rng.getrandbits(32), "spread": 0.4},
-               "bits": rng.choice(_BITS), "frames": rng.choice([1, 2, 3])}[what]
+               "bits": rng.choice(_BITS), "frames": rng.choice([1, 2, 3]),
+               "prnu_scale": rng.choice([0.5, 0.75, 1.25]), "dcnu_scale": rng.choice([0.5, 2.0])}[what]
         ops.append({"op": "reconf", "set": {what: val}})
         ops.append({"op": "expose"})
         if rng.random() < 0.6:
@@ -317,6 +324,7 @@ def execute(plan):
                 S.prnu[g.random((m, n)) < 0.2] = 0.0          # dead pixels
             if d["prnu"].get("dtype") == "f32":
                 S.prnu = S.prnu.astype(np.float32)
+            S.prnu = S.prnu * d.get("prnu_scale_acc", 1.0) if d.get("prnu_scale_acc") else S.prnu
         if d["dcnu"]:
             g = np.random.Generator(np.random.PCG64(d["dcnu"]["seed"]))
             S.dcnu = 1.0 + d["dcnu"]["spread"] * (g.random((m, n)) - 0.5)
@@ -324,8 +332,22 @@ def execute(plan):
                 S.dcnu = S.dcnu.astype(np.float32)
             elif d["dcnu"].get("dtype") == "i64":
                 S.dcnu = np.rint(S.dcnu * 2).astype(np.int64)
+            S.dcnu = S.dcnu * d.get("dcnu_scale_acc", 1.0) if d.get("dcnu_scale_acc") else S.dcnu
 
     refresh()
+
+    def laid_out(a, spec):
+        """The caller's map object in the memory layout it happens to have (a window of a larger array, a
+        transposed array): same values, not C-contiguous."""
+        lay = (spec or {}).get("layout", "c")
+        if a is None or lay == "c" or a.ndim != 2:
+            return None if a is None else a.copy()
+        if lay == "transposed":
+            return np.ascontiguousarray(a.T).T
+        big = np.zeros((a.shape[0], 2 * a.shape[1]), dtype=a.dtype)
+        view = big[:, ::2]
+        view[...] = a
+        return view
 
     def make_det():
         bf = cfg.get("bits_form", "int")
@@ -337,8 +359,7 @@ def execute(plan):
             return np.array(d[key]) if key in a0 else d[key]
         return D.Detector(dark_current=form("dark"), read_noise=form("read_noise"), bias=form("bias"), fwc=form("fwc"),
                           conversion_gain=form("gain"), bits=bits_arg, exposure_time=form("t"),
-                          prnu=None if S.prnu is None else S.prnu.copy(),
-                          dcnu=None if S.dcnu is None else S.dcnu.copy())
+                          prnu=laid_out(S.prnu, d["prnu"]), dcnu=laid_out(S.dcnu, d["dcnu"]))
 
     events, violations = [], []
     faults, probes = {}, {}
@@ -497,18 +518,29 @@ def execute(plan):
         ev = {"i": i, "op": k}
         if k == "reconf":
             for key, val in op["set"].items():
-                d[key] = val
+                if key in ("prnu_scale", "dcnu_scale"):
+                    d[key + "_acc"] = d.get(key + "_acc", 1.0) * val
+                else:
+                    d[key] = val
+                    if key in ("prnu", "dcnu"):
+                        d.pop(key + "_scale_acc", None)
             refresh()
             det = shared["det"]
             if det is not None:
                 # the user changes public attributes of the existing Detector object
                 for key in op["set"]:
-                    if key in ATTR:
+                    if key == "prnu_scale" and det.prnu is not None:
+                        det.prnu *= op["set"][key]            # the installed map, edited in place
+                        bump(faults, "installed_map_edited_in_place")
+                    elif key == "dcnu_scale" and det.dcnu is not None:
+                        det.dcnu *= op["set"][key]
+                        bump(faults, "installed_map_edited_in_place")
+                    elif key in ATTR:
                         setattr(det, ATTR[key], d[key])
                     elif key == "dcnu":
-                        det.dcnu = None if S.dcnu is None else S.dcnu.copy()
+                        det.dcnu = laid_out(S.dcnu, d["dcnu"])
                     elif key == "prnu":
-                        det.prnu = None if S.prnu is None else S.prnu.copy()
+                        det.prnu = laid_out(S.prnu, d["prnu"])
                 bump(faults, "detector_reconfigured_in_place")
             else:
                 bump(faults, "detector_reconfigured_fresh")
@@ -913,9 +945,62 @@ def _bayer(np, B, mos, cfa, viol, bump, probes, name=None):
                     if not np.array_equal(_site(comp, SS[nm]), _site(keep[nm], SS[nm])):
                         viol("bayer-native-sites", "composite" if variant == "return" else "composite-output-arg",
                              plane=nm, cfa=lay)
+        _wb(np, B, mos, cfa, viol, bump, probes)
         bump(probes, f"bayer_{cfa}")
     except Exception as e:
         viol("raised", "bayer", exc=type(e).__name__, msg=str(e)[:160], cfa=cfa)
+
+
+def _wb(np, B, mos, cfa, viol, bump, probes):
+    """White-balance prescaling (in place, by design) as far as the native-site clause reaches: unit gains
+    leave every raw sample as it was; each gain lands on its own colour site in both layouts (one factor per
+    site); a call whose saturation limiter engaged leaves nothing behind for the next call; the demosaicked
+    planes carry the prescaled samples at their native sites.  How the limiter chooses its factor is not judged."""
+    if not hasattr(B, "wb_prescale"):
+        return
+    S = _SITES[cfa]
+    mf = np.abs(mos.astype(np.float64)) + 1.0          # a positive float mosaic
+    top = float(mf.max())
+    gains = {"r": 2.0, "g1": 0.5, "g2": 1.25, "b": 3.0}
+
+    def unit(tag):
+        a = mf.copy()
+        B.wb_prescale(a, 1, 1, 1, 1, cfa)
+        if not np.array_equal(a, mf):
+            viol("bayer-native-sites", "wb-unit-gains" + tag, cfa=cfa)
+
+    def gained(tag, **kw):
+        a = mf.copy()
+        B.wb_prescale(a, gains["r"], gains["g1"], gains["g2"], gains["b"], cfa, **kw)
+        for nm in ("r", "g1", "g2", "b"):
+            want = _site(mf, S[nm]) * gains[nm]
+            if not bool(np.all(np.abs(_site(a, S[nm]) - want) <= 1e-12 * np.abs(want))):
+                viol("bayer-native-sites", "wb-gain-site" + tag, plane=nm, cfa=cfa)
+                break
+        return a
+
+    unit("")
+    pre = gained("")
+    gained("-safe-ample", safe=True, saturation=top * 10.0)      # nothing to limit: same answer
+    for sat in (top / 2.0, [top / 3.0, top * 2.0, top / 1.5, top * 4.0]):
+        for g4 in ((1, 1, 1, 1), (gains["r"], gains["g1"], gains["g2"], gains["b"])):
+            b = mf.copy()
+            B.wb_prescale(b, *g4, cfa, safe=True, saturation=sat)   # the limiter engages
+            for nm in ("r", "g1", "g2", "b"):
+                fac = _site(b, S[nm]) / _site(mf, S[nm])
+                if float(fac.max() - fac.min()) > 1e-12 * float(abs(fac).max()):
+                    viol("bayer-native-sites", "wb-safe-one-factor-per-site", plane=nm, cfa=cfa)
+                    break
+    # ... and the calls above must not have left anything behind
+    unit("-after-safe")
+    gained("-after-safe")
+    mal = np.asarray(B.demosaic_malvar(pre.copy(), cfa))
+    if mal.shape == (*pre.shape, 3):
+        for ch, names in ((0, ("r",)), (1, ("g1", "g2")), (2, ("b",))):
+            for nm in names:
+                if not np.array_equal(_site(mal[..., ch], S[nm]), _site(pre, S[nm])):
+                    viol("bayer-native-sites", "malvar-after-wb", plane=nm, cfa=cfa)
+    bump(probes, "white_balance_checked")
 
 
 # ---------------------------------------------------------------------------
